@@ -257,8 +257,11 @@ func runArgs(a Args) (err error, encodable bool) {
 		}
 		// un-encodable argument: must fail fast, without compiling or running anything on a worker and without retries
 		counts := st.sys.Counts()
-		if counts["Worker.Compile"] != 0 || counts["Worker.Run"] != 0 {
-			return fmt.Errorf("an argument cannot be encoded, yet %d Worker.Compile and %d Worker.Run calls were made before the error: %v", counts["Worker.Compile"], counts["Worker.Run"], runErr), encodable
+		// (Worker.Compile calls are not counted: while the first task of the invocation discovers that
+		// the invocation cannot be serialised, a sibling task may already be compiling the invocations
+		// of the Result arguments on its machine.)
+		if counts["Worker.Run"] != 0 {
+			return fmt.Errorf("an argument cannot be encoded, yet %d Worker.Run calls were made before the error: %v", counts["Worker.Run"], runErr), encodable
 		}
 		if took > 20*time.Second {
 			return fmt.Errorf("an argument cannot be encoded; the error took %v to surface", took), encodable
@@ -282,7 +285,7 @@ const tArgs = "TestVerifC16Arguments"
 
 func TestVerifC16Arguments(t *testing.T) {
 	rec := vt.New("C16", "arguments-end-to-end",
-		"rapid: argument lists (int, string, float64, []byte, []int, map, struct, pointer incl. nil, interface{} holding 8 registered types or nil / func / chan / an unregistered struct, bigslice.Slice holding nil, a Result or a Result of a Func that itself took a Result) for a registered Func whose slice renders its arguments; run on the local executor and on the bigmachine test system behind an RPC-counting interposer; oracle: rows equal the rendering computed on the driver; if an argument cannot be gob-encoded, Run must either succeed with the right rows or fail fast (no Worker.Compile/Worker.Run call, no retries, < 20 s); never a hang (60 s); non-trivial = bigmachine run; distinct by case hash")
+		"rapid: argument lists (int, string, float64, []byte, []int, map, struct, pointer incl. nil, interface{} holding 8 registered types or nil / func / chan / an unregistered struct, bigslice.Slice holding nil, a Result or a Result of a Func that itself took a Result) for a registered Func whose slice renders its arguments; run on the local executor and on the bigmachine test system behind an RPC-counting interposer; oracle: rows equal the rendering computed on the driver; if an argument cannot be gob-encoded, Run must either succeed with the right rows or fail fast (no task is run on a worker, no retries, < 20 s); never a hang (60 s); non-trivial = bigmachine run; distinct by case hash")
 	docs, only := vt.Replays(tArgs)
 	for _, d := range docs {
 		var a Args
